@@ -144,6 +144,18 @@ def theorem_names(pid):
     return re.findall(r"^\s*(?:Theorem|Lemma|Corollary)\s+([A-Za-z0-9_']+)", src, re.M)
 
 
+def extra_theorems(pid):
+    """(module, name) of the composition theorems (props/Compose.v) registered for this property:
+    cfg['compose'] = list of name prefixes, e.g. ["Compose_ingest", "Compose_wf"]."""
+    pref = PROPS[pid].get("compose")
+    f = os.path.join(COQ, "props", "Compose.v")
+    if not pref or not os.path.exists(f):
+        return []
+    src = strip_coq_comments(open(f).read())
+    names = re.findall(r"^\s*(?:Theorem|Lemma|Corollary)\s+([A-Za-z0-9_']+)", src, re.M)
+    return [("Compose", n) for n in names if any(n.startswith(p) for p in pref)]
+
+
 def tie_theorems(pid):
     """(module, name) of every Theorem/Lemma/Example stated in the property's tie files."""
     res = []
@@ -165,11 +177,16 @@ def print_assumptions(pid, bdir):
     for n in names:
         lines.append('Redirect "%s" Print Assumptions %s.' % (os.path.join(bdir, "pa_" + n), n))
     ties = [(m, n) for (m, n) in tie_theorems(pid) if os.path.exists(os.path.join(COQ, "gen", m + ".vo"))]
+    comps = extra_theorems(pid) if os.path.exists(os.path.join(COQ, "props", "Compose.vo")) else []
+    if comps:
+        lines.append("From W.props Require Compose.")
+        for m, n in comps:
+            lines.append('Redirect "%s" Print Assumptions W.props.Compose.%s.' % (os.path.join(bdir, "pa_Compose.%s" % n), n))
     for m in sorted(set(m for m, _ in ties)):
         lines.append("From W.gen Require %s." % m)
     for m, n in ties:
         lines.append('Redirect "%s" Print Assumptions W.gen.%s.%s.' % (os.path.join(bdir, "pa_%s.%s" % (m, n)), m, n))
-    names = names + ["%s.%s" % (m, n) for m, n in ties]
+    names = names + ["%s.%s" % (m, n) for m, n in ties] + ["Compose.%s" % n for _, n in comps]
     vf = os.path.join(bdir, "Assumptions_%s.v" % pid)
     with open(vf, "w") as f:
         f.write("\n".join(lines) + "\n")
